@@ -5,6 +5,7 @@ import (
 	"context"
 	"encoding/json"
 	"fmt"
+	"math"
 	"os"
 	"reflect"
 	"sort"
@@ -416,6 +417,18 @@ func genText(r *coqfmt.Rng, t reflect.Type) (text string, bad bool) {
 }
 
 func genTextMode(r *coqfmt.Rng, t reflect.Type, allowBad bool) (string, bool) {
+	if k := t.Kind(); allowBad && k != reflect.String && k != reflect.Slice && k != reflect.Map && k != reflect.Ptr && r.Chance(1, 10) {
+		return "", true // a variable that is present but empty: unparsable for every non-string scalar
+	}
+	if allowBad && r.Chance(1, 6) {
+		// beyond the narrow float kinds' range, inside float64's: must be an error, not an infinity
+		switch t.Kind() {
+		case reflect.Float32:
+			return coqfmt.Pick(r, []string{"1e39", "-3.5e38", "340282356779733661637539395458142568448"}), true
+		case reflect.Complex64:
+			return coqfmt.Pick(r, []string{"1e39+1i", "1-4e38i", "1e39", "3.5e38i"}), true
+		}
+	}
 	for {
 		txt, bad := genText(r, t)
 		if allowBad || !bad {
@@ -430,6 +443,37 @@ var complexTexts = []string{"0", "(1+2i)", "1.5-0.25i", "3", "2i", "-2i", "1e2+1
 
 func genTextAny(r *coqfmt.Rng) string {
 	return coqfmt.Pick(r, []string{"x", "1", "true", "", "a,b", "1s"})
+}
+
+// hugeFinite: beyond the fixed-point value printer.  An infinity is NOT skipped: no generated text
+// denotes one, so one in a returned value is an overflow that went unreported.
+func hugeFinite(f float64) bool {
+	return !math.IsInf(f, 0) && (f > 1e15 || f < -1e15)
+}
+
+func hasHugeFloat(v reflect.Value) bool {
+	switch v.Kind() {
+	case reflect.Float32, reflect.Float64:
+		return hugeFinite(v.Float())
+	case reflect.Complex64, reflect.Complex128:
+		c := v.Complex()
+		return hugeFinite(real(c)) || hugeFinite(imag(c))
+	case reflect.Ptr, reflect.Interface:
+		return !v.IsNil() && hasHugeFloat(v.Elem())
+	case reflect.Struct:
+		for i := 0; i < v.NumField(); i++ {
+			if hasHugeFloat(v.Field(i)) {
+				return true
+			}
+		}
+	case reflect.Slice, reflect.Array:
+		for i := 0; i < v.Len(); i++ {
+			if hasHugeFloat(v.Index(i)) {
+				return true
+			}
+		}
+	}
+	return false
 }
 
 func valueSafe(src *env.Source, PT reflect.Type) (v reflect.Value, err error, panicked bool) {
@@ -504,7 +548,7 @@ func run(raw json.RawMessage) driver.Result {
 		envm[name] = val
 		return true
 	}
-	pSet := 1 + r.Intn(4) // probability k/4 that a leaf's documented variable is bound
+	pSet := 1 + r.Intn(4)      // probability k/4 that a leaf's documented variable is bound
 	allowBad := r.Chance(1, 4) // malformed / out-of-range texts only in a quarter of the cases
 	for _, l := range leaves {
 		cls := leafClass(l.typ)
@@ -572,6 +616,11 @@ func run(raw json.RawMessage) driver.Result {
 	val, err, panicked := valueSafe(&env.Source{Prefix: prefix}, PT)
 	for k := range envm {
 		os.Unsetenv(k)
+	}
+	if err == nil && !panicked && hasHugeFloat(val) {
+		// e.g. two leaves share one variable and an int64-sized text reaches a float leaf: in range,
+		// but beyond the value printer's fixed-point form
+		return driver.Result{Coq: "EnvSkip", Kind: "skipped-huge-float"}
 	}
 	okTerm := ""
 	stackTerm := "(Err 0)"
